@@ -127,7 +127,7 @@ CLAIMS = {
                 "index exactly once; bit-for-bit symmetry of all four f32 metrics on the soft-float instance; exact +0 self-distance for "
                 "Euclidean/Manhattan on finite vectors; cosine in [0,1]; rounding-error bounds for scalar and SIMD shapes in the standard "
                 "model, which the bit-level soft-float arithmetic is proved to satisfy in the normal range, so the bounds hold for the "
-                "actual kernels (C11_round_f32_dot_product, _euclidean_distance, _manhattan_distance). Every real kernel (dispatching, scalar, SSE, AVX+FMA) is compared BIT FOR BIT with the model's soft-float kernels "
+                "actual kernels (C11_round_f32_dot_product, _euclidean_distance, _manhattan_distance) and for the REPORTED values: the Euclidean distance after the square root (C11_round_f32_reported_euclidean) and the cosine distance (1-cos)/2 within 1.05(n+5)u, exactly +0.0 when a vector is all zeros (C11_round_f32_cosine, C11_cosine_zero_norm). Every real kernel (dispatching, scalar, SSE, AVX+FMA) is compared BIT FOR BIT with the model's soft-float kernels "
                 "for lengths 1..300 x byte offsets 0..3 x value families, and with the exact sum within the bound; every REPORTED distance of "
                 "the four metrics is checked against its definition evaluated exactly (sqrt(sum (a-b)^2), sum |a-b|, (1-cos)/2 with 0 for a "
                 "vanishing norm, the inner product), for symmetry against the swapped pair and for the self-distance; the distances that "
@@ -159,7 +159,10 @@ CLAIMS = {
     "C17": {
         "text": "up04to05 (down s) = s minus version records is proved as a literal equality of databases for every well-formed database "
                 "(all indexes, re-tagged children, renamed metric, one mark per pending id); the 0.5->0.6 stamp adds a version record "
-                "exactly to indexes with metadata and changes nothing else; unknown kinds raise CannotDecodeKeyMode exactly. Real crate: "
+                "exactly to indexes with metadata and changes nothing else; unknown kinds raise CannotDecodeKeyMode exactly. Every database "
+                "reachable by a history whose builds are cosine is proved well-formed, and downgrade -> upgrade -> stamp of it is proved to "
+                "open, to hold a valid forest, to answer unlimited-budget queries exactly and to demand a build exactly where marks were "
+                "pending (C17_upgrade_reachable). Real crate: "
                 "old-layout databases produced from C01-style histories are upgraded by the real functions and the dumps compared with "
                 "the original and with the model.",
         "note": COMMON_NOTE + " The inverse layout change (down) is implemented twice (Rust harness, Lean model) and cross-checked.",
@@ -190,9 +193,12 @@ CLAIMS = {
         "text": "Reader::open and Writer::need_build are characterised exactly (three checks in order; stale iff a mark exists or "
                 "metadata is missing), every effective mutation provably leaves a mark, no-ops provably change nothing, metric names "
                 "are pairwise distinct; the implementation's open/need_build answers are compared with the model after every operation, "
-                "in the write transaction and from fresh read transactions after commit and abort.",
+                "in the write transaction and from fresh read transactions after commit and abort. Staleness is also characterised as a "
+                "function of the HISTORY (C06_history): an abstract status never-built / built-clean / built-dirty computed over the "
+                "operations (effective = accepted add/append, delete of a present id, clear, change of metric, successful build) "
+                "determines the answer of Reader::open, error kind included, and of need_build, for every history and every index.",
         "note": COMMON_NOTE,
-        "technique": "Lean 4 theorems over the store model + per-operation differential replay",
+        "technique": "Lean 4 theorems over the store model and over operation histories + per-operation differential replay",
     },
     "C19": {
         "text": "Rejected calls provably return the documented error and no new store; append is proved to fail exactly when some key of the "
